@@ -7,7 +7,7 @@ import kflow
 from common import REPO, log, scratch
 from mir import parse as P
 from mir import textlayer as T
-from mir.exec import Executor, State, Agg, EnumV, RefV, Opaque, Outcome, FnV, UNIT
+from mir.exec import Executor, State, Agg, EnumV, RefV, Opaque, Outcome, FnV, UNIT, Panic
 from mir.parse import Unsupported
 from mir.relation import dump_mir
 from mir.summaries import ok1
@@ -91,6 +91,21 @@ def build(cfg, N, mir_path=None, line=None):
             return ok1(st, Opaque("iter", T.SliceV(sl.line, sl.s, z3.If(z3.Or(big, z3.UGE(n8, ln)), sl.e, sl.s + n8))))
         return ok1(st, Opaque("iter", T.SliceV(sl.line, z3.If(z3.Or(big, z3.UGE(n8, ln)), sl.e, sl.s + n8), sl.e)))
 
+    def s_collect(ex, st, callee, args, argv, f):
+        """collecting a byte iterator over (part of) the line into the owned payload buffer: represented by the slice itself, like
+        `into()`.  (heapless' FromIterator panics beyond the capacity: a collect of more than the capacity is a panic path)"""
+        it = argv[0]
+        sl = ex.deref_val(st, it.e) if isinstance(it, Opaque) and it.tag == "iter" else None
+        if not isinstance(sl, T.SliceV):
+            raise Unsupported("collect over %r" % (it,))
+        m = re.search(r"Vec<u8, (\d+)>", callee)
+        if not m:
+            return ok1(st, sl)
+        cap = int(m.group(1))
+        return T.fork(ex, st, z3.ULE(z3.ZeroExt(32, sl.e - sl.s), z3.BitVecVal(cap, T.W + 32)),
+                      lambda s1: [Outcome(s1, ret=sl)],
+                      lambda s2: [Outcome(s2, panic=Panic("heapless FromIterator: capacity exceeded", callee))])
+
     def s_fold(ex, st, callee, args, argv, f):
         it, init, clo = argv
         sl = ex.deref_val(st, it.e) if isinstance(it, Opaque) else None
@@ -114,6 +129,8 @@ def build(cfg, N, mir_path=None, line=None):
         (r"^core::slice::<impl \[u8\]>::iter$", s_iter),
         (r"as Iterator>::fold::<u8,", s_fold),
         (r"as Iterator>::(?:take|skip)$", s_take),
+        (r"as Iterator>::(?:copied|cloned)(?:::<.*>)?$", lambda ex, st, c, a, v, f: ok1(st, v[0])),
+        (r"as Iterator>::collect::<(?:std::vec::|alloc::vec::)?Vec<u8(?:, \d+)?>>$", s_collect),
     ]
     table = T.build_table(extra)
     ex = Executor(funcs, enums, structs, table)
@@ -126,7 +143,10 @@ def build(cfg, N, mir_path=None, line=None):
     st = State()
     st.pc.append(line.wf)
     inp = T.SliceV(line, T.pos(0), line.n)
-    outs = ex.run(fparse, [inp], st)
+    # what AisParser::parse actually hands to the sentence parser and to the checksum function: a clamp or a re-slicing between the
+    # entry point and those two calls is behaviour of the text layer too (round-4 changes C02-4, C08-4 sit exactly there)
+    wiring = capture_wiring(funcs, enums, structs, extra, line, inp, fparse, fchk)
+    outs = ex.run(fparse, [wiring["line_arg"]], st)
     paths = []
     for o in outs:
         pc = list(o.st.pc[1:])
@@ -142,7 +162,8 @@ def build(cfg, N, mir_path=None, line=None):
         raw, sent, chk32 = tup.fields
         if not (isinstance(raw, T.SliceV) and isinstance(sent, Agg) and len(sent.fields) == 10):
             raise Unsupported("parse_nmea_sentence returned %r" % (tup,))
-        for o2 in ex.run(fchk, [raw, chk32], o.st):
+        raw_c, chk_c = wiring["chk_args"](raw, chk32)
+        for o2 in ex.run(fchk, [raw_c, chk_c], o.st):
             pc2 = list(o2.st.pc[1:])
             if o2.panic is not None:
                 paths.append({"pc": pc2, "cat": A_PANIC, "note": o2.panic.msg})
@@ -160,11 +181,77 @@ def build(cfg, N, mir_path=None, line=None):
             paths.append(rec)
     rel = TRel()
     rel.cfg, rel.N, rel.line, rel.paths, rel.mir_path = cfg, N, line, paths, mir_path
-    rel.functions_encoded = sorted(ex.calls_inlined | {fparse.name, fchk.name})
+    rel.functions_encoded = sorted(ex.calls_inlined | {fparse.name, fchk.name}) + ["AisParser::parse (prefix up to the checksum call: arguments handed to the two functions)"]
+    rel.wiring = wiring["note"]
     rel.summarised = sorted(ex.calls_summarised)
     rel.stats = {"paths": len(paths), "accept_paths": sum(1 for p in paths if p["cat"] == A_ACCEPT), "panic_paths": sum(1 for p in paths if p["cat"] == A_PANIC),
                  "blocks_executed": ex.blocks_visited, "encode_s": round(time.time() - t0, 2), "N": N}
     return rel
+
+
+def capture_wiring(funcs, enums, structs, extra, line, inp, fparse, fchk):
+    """run the prefix of AisParser::parse (layer T table, the two callees replaced by recorders) and return the slice it hands to the
+    sentence parser and the (slice, checksum) it hands to the checksum function as functions of the parser's results"""
+    fmain = None
+    for name, fn in funcs.items():
+        if name.endswith("::parse") and fn.args and enum_last(fn.args[0][1]) == "AisParser":
+            fmain = fn
+    if fmain is None:
+        raise Unsupported("AisParser::parse not found in the MIR dump")
+    RS, RE, CH = z3.BitVec("cap!rs", T.W), z3.BitVec("cap!re", T.W), z3.BitVec("cap!chk", 8)
+    cap = {"line": [], "chk": []}
+
+    def s_cap_parse(ex, st, callee, args, argv, f):
+        v = ex.deref_val(st, argv[0])
+        if not isinstance(v, T.SliceV):
+            raise Unsupported("the sentence parser is applied to %r" % (v,))
+        cap["line"].append((list(st.pc), v))
+        sent = Agg([Opaque("captured-field-%d" % i) for i in range(10)], "AisSentence")
+        okv = Agg([Opaque("rest"), Agg([T.SliceV(line, RS, RE), sent, CH])])
+        return [Outcome(st, ret=EnumV("Result", 0, {0: [okv]}))]
+
+    def s_cap_chk(ex, st, callee, args, argv, f):
+        v, c = ex.deref_val(st, argv[0]), argv[1]
+        if not (isinstance(v, T.SliceV) and z3.is_bv(c)):
+            raise Unsupported("the checksum function is applied to %r, %r" % (v, c))
+        cap["chk"].append((list(st.pc), v, c))
+        return [Outcome(st, ret=EnumV("Result", 1, {1: [EnumV("Error", 1, {1: [c, c]})]}))]
+
+    pn, cn = fparse.name.split("::")[-1], fchk.name.split("::")[-1]
+    table = T.build_table([(r"(?:^|::)%s$" % re.escape(pn), s_cap_parse), (r"(?:^|::)%s$" % re.escape(cn), s_cap_chk)] + list(extra))
+    ex = Executor(funcs, enums, structs, table)
+    ex.use_solver_pruning = False
+    ex.unroll = 3
+    st = State()
+    st.frames.append({0: Agg([Opaque("state-id"), Opaque("state-number"), Opaque("state-data")], "AisParser")})
+    from mir.exec import RefV
+    ex.run(fmain, [RefV(0, 0, []), inp, z3.Bool("cap!decode")], st)
+    if not cap["line"] or not cap["chk"]:
+        raise Unsupported("AisParser::parse does not reach the sentence parser / the checksum function on a recognisable path")
+
+    def merge(items, pick):
+        """value of pick(item) under the items' path conditions (nested ite; the last one is the default)"""
+        val = pick(items[-1])
+        for it in reversed(items[:-1]):
+            c = z3.And(*it[0]) if it[0] else z3.BoolVal(True)
+            val = z3.If(c, pick(it), val)
+        return val
+
+    la = T.SliceV(line, merge(cap["line"], lambda it: it[1].s), merge(cap["line"], lambda it: it[1].e))
+    identity_line = len(cap["line"]) == 1 and z3.simplify(la.s == inp.s).eq(z3.BoolVal(True)) and z3.simplify(la.e == inp.e).eq(z3.BoolVal(True))
+    cs, ce, cc = merge(cap["chk"], lambda it: it[1].s), merge(cap["chk"], lambda it: it[1].e), merge(cap["chk"], lambda it: it[2])
+    identity_chk = len(cap["chk"]) == 1 and cs.eq(RS) and ce.eq(RE) and cc.eq(CH)
+
+    def chk_args(raw, chk):
+        if identity_chk:
+            return raw, chk
+        sub = [(RS, raw.s), (RE, raw.e), (CH, chk)]
+        return T.SliceV(line, z3.substitute(cs, *sub), z3.substitute(ce, *sub)), z3.substitute(cc, *sub)
+
+    return {"line_arg": inp if identity_line else la, "chk_args": chk_args,
+            "note": "AisParser::parse hands %s to the sentence parser and %s to the checksum function" % (
+                "the line itself" if identity_line else "a slice of the line (executed from its MIR)",
+                "the covered bytes and the transmitted value as returned" if identity_chk else "a slice / value derived from them (executed from its MIR)")}
 
 
 def enum_last(ty):
